@@ -282,26 +282,37 @@ public:
 
     if (pi)
     {
-      if (lowerBound_ <= pi->lowerBound_)
+      if (lowerBound_ < pi->lowerBound_)
       {
         lowerBound = pi->lowerBound_;
         inclLowerBound = pi->inclLowerBound_;
       }
-      else
+      else if (lowerBound_ > pi->lowerBound_)
       {
         lowerBound = lowerBound_;
         inclLowerBound = inclLowerBound_;
       }
+      else
+      {
+        // Same bound: it is included only if both intervals include it.
+        lowerBound = lowerBound_;
+        inclLowerBound = inclLowerBound_ && pi->inclLowerBound_;
+      }
 
-      if (upperBound_ >= pi->upperBound_)
+      if (upperBound_ > pi->upperBound_)
       {
         upperBound = pi->upperBound_;
         inclUpperBound = pi->inclUpperBound_;
       }
-      else
+      else if (upperBound_ < pi->upperBound_)
       {
         upperBound = upperBound_;
         inclUpperBound = inclUpperBound_;
+      }
+      else
+      {
+        upperBound = upperBound_;
+        inclUpperBound = inclUpperBound_ && pi->inclUpperBound_;
       }
       return new IntervalConstraint(lowerBound, upperBound, inclLowerBound, inclUpperBound, (precision_ > pi->getPrecision()) ? precision_ : pi->getPrecision());
     }
@@ -322,16 +333,25 @@ public:
     {
       const IntervalConstraint& pi = dynamic_cast<const IntervalConstraint&>(c);
 
-      if (lowerBound_ <= pi.lowerBound_)
+      if (lowerBound_ < pi.lowerBound_)
       {
         lowerBound_ = pi.lowerBound_;
         inclLowerBound_ = pi.inclLowerBound_;
       }
+      else if (lowerBound_ == pi.lowerBound_)
+      {
+        // Same bound: it is included only if both intervals include it.
+        inclLowerBound_ = inclLowerBound_ && pi.inclLowerBound_;
+      }
 
-      if (upperBound_ >= pi.upperBound_)
+      if (upperBound_ > pi.upperBound_)
       {
         upperBound_ = pi.upperBound_;
         inclUpperBound_ = pi.inclUpperBound_;
+      }
+      else if (upperBound_ == pi.upperBound_)
+      {
+        inclUpperBound_ = inclUpperBound_ && pi.inclUpperBound_;
       }
       if (pi.getPrecision() > precision_)
         precision_ = pi.getPrecision();
